@@ -178,6 +178,14 @@ t("C16", "grey-ramp-value-typo", COL, "0x080808", "0x080809", "palette[232]")
 t("C16", "rgb-constant-disagrees-with-table", COL, "\tColorAliceBlue            = ColorIsRGB | ColorValid | 0xF0F8FF", "\tColorAliceBlue            = ColorIsRGB | ColorValid | 0xF0F8FE", "constant-vs-table")
 t("C16", "cyan-removed", COL, "\t\"cyan\":                 ColorAqua,\n", "", "name:cyan")
 
+t("C16", "hex-mask-one-nibble-short", COL, "\t\treturn int32(c & 0xffffff)", "\t\treturn int32(c & 0xfffff)", "Hex(NewHexColor(v))=v")
+t("C16", "green-shifted-into-red", COL, "((g & 0xff) << 8)", "((g & 0xff) << 16)", "NewRGBColor(r,g,b):bits")
+t("C16", "rgb-components-not-masked", COL, "\treturn NewHexColor(((r & 0xff) << 16) | ((g & 0xff) << 8) | (b & 0xff))", "\treturn NewHexColor((r << 16) | (g << 8) | b)", "components-masked")
+t("C16", "rgb-blue-reads-seven-bits", COL, "(v >> 8) & 0xff, v & 0xff", "(v >> 8) & 0xff, v & 0x7f", "RGB(NewRGBColor(r,g,b))=(r,g,b)")
+t("C16", "truecolor-drops-rgb-flag", COL, "\t\treturn c | ColorValid\n", "\t\treturn (c & 0xffffff) | ColorValid\n", "TrueColor(rgb)=rgb")
+t("C16", "image-colour-takes-low-byte", COL, "int32(r>>8), int32(g>>8), int32(b>>8)", "int32(r>>8), int32(g), int32(b>>8)", "FromImageColor:components")
+t("C16", "palette-colour-marked-rgb", COL, "\treturn Color(index) | ColorValid\n", "\treturn Color(index) | ColorValid | ColorIsRGB\n", "PaletteColor(i):bits")
+
 # ---------------------------------------------------------------- C17
 t("C17", "fallback-before-acs", TS, "\t\t\tif acs, ok := t.acs[r]; ok {\n\t\t\t\tbuf = append(buf, []byte(acs)...)\n\t\t\t} else if fb, ok := t.fallback[r]; ok {\n\t\t\t\tbuf = append(buf, []byte(fb)...)\n\t\t\t}", "\t\t\tif fb, ok := t.fallback[r]; ok {\n\t\t\t\tbuf = append(buf, []byte(fb)...)\n\t\t\t} else if acs, ok := t.acs[r]; ok {\n\t\t\t\tbuf = append(buf, []byte(acs)...)\n\t\t\t}", "acs-before-fallback")
 t("C17", "candisplay-ignores-sub", TS, "\t\tif dst != 0 && err == nil && nb[0] != '\\x1A' {\n\t\t\treturn true\n\t\t}\n\t}\n\t// Terminal fallbacks", "\t\tif dst != 0 && err == nil {\n\t\t\treturn true\n\t\t}\n\t}\n\t// Terminal fallbacks", "CanDisplay")
